@@ -188,6 +188,10 @@ pub fn run(tier: Tier, seed: u64) -> i32 {
             for _ in 0..3 {
                 let r = rng.next_u32() as usize % 252;
                 let base = bits + r * round;
+                if base + 1 >= own.len() {
+                    ev.bucket("unexpected-layout.adversaries-skipped");
+                    continue;
+                }
                 let mut f = Forge::new();
                 f.insert(own[base + 1], -h.snap.witnesses[own[base + 1]]);
                 lab.adversary(&case, &h, "ladder-intermediate:negated-x", &f);
@@ -195,6 +199,9 @@ pub fn run(tier: Tier, seed: u64) -> i32 {
             // a decomposition bit flipped (the scalar witness keeps its value)
             let i = rng.next_u32() as usize % 252;
             let mut f = Forge::new();
+            if 2 * i >= own.len() {
+                return;
+            }
             f.insert(own[2 * i], one - h.snap.witnesses[own[2 * i]]);
             lab.adversary(&case, &h, "decomposition-bit:flipped", &f);
         }
@@ -260,6 +267,7 @@ pub fn run(tier: Tier, seed: u64) -> i32 {
     ev.floor("near-miss assignments (one sub-identity on one row) refused by the real prover", ev.bucket_get("near_miss.end_to_end"), 50);
     ev.floor("sub-identities covered by near misses", ev.set_len("near_miss_identities") as u64, 2);
     ev.floor("cases run in a context of earlier calls on the operands", ev.bucket_get("context.cases"), 150);
+    ev.floor("copy-constraint-only forgeries on a consumer of the returned witness, through the real prover", ev.bucket_get("copybreak.end_to_end"), 8);
     ev.finish()
 }
 
